@@ -119,7 +119,7 @@ func (e *callerEnv) doOp(op, arg int) string {
 		}()
 		switch op {
 		case 0:
-			m := ParseMem(src, "p.bcl", 0)
+			m := ParseMem(src, "p.bcl", (arg>>2)&(OptDisasm|OptStats))
 			d := []byte{}
 			if m.Err == nil && m.Panic == "" {
 				d, _, _ = DumpProg(m.Prog)
@@ -130,14 +130,17 @@ func (e *callerEnv) doOp(op, arg int) string {
 			bs, bd, err := bcl.Interpret(src, bcl.OptOutput(&out), bcl.OptLogger(&log))
 			res = digest("interpret", out.String(), log.String(), RenderBlocks(bs), RenderBinding(bd), errText(err))
 		case 2:
+			// the observer options are part of "executing one shared Prog": trace and statistics
+			// go to the Prog's own (concurrency-safe) writer and to a private one
 			o0, l0 := e.out.mine().Len(), e.log.mine().Len()
-			bs, bd, err := bcl.Execute(e.shared)
-			res = digest("exec-shared", e.out.mine().String()[o0:], e.log.mine().String()[l0:], RenderBlocks(bs), RenderBinding(bd), errText(err))
+			var sout bytes.Buffer
+			bs, bd, err := bcl.Execute(e.shared, bcl.OptOutput(&sout), bcl.OptTrace(arg&1 != 0), bcl.OptStats(arg&2 != 0))
+			res = digest("exec-shared", e.out.mine().String()[o0:], e.log.mine().String()[l0:], sout.String(), RenderBlocks(bs), RenderBinding(bd), errText(err))
 		case 3:
 			d, e1, e2 := DumpProg(e.shared)
 			res = digest("dump-shared", string(d), e1, e2)
 		case 4:
-			lr := loadVia(e.sharedDump, nil, "l", false)
+			lr := loadVia(e.sharedDump, nil, "l", arg&1 != 0)
 			if lr.Err != nil || lr.Panic != "" {
 				res = digest("load", errText(lr.Err), lr.Panic)
 				return
@@ -168,6 +171,67 @@ func (e *callerEnv) doOp(op, arg int) string {
 }
 
 const numOps = 8
+
+var coldStartDone bool
+
+// coldStart is the very first use of the library in this worker process: several goroutines
+// enter it at once, before anything has been parsed, executed, loaded or bound sequentially -
+// the only moment at which lazily initialised package state can be raced on. Their results
+// must agree with each other and with the same calls made afterwards.
+func coldStart(o *Outcome, sc *Scenario) {
+	coldStartDone = true
+	srcs := [][]byte{
+		[]byte("var a = 1 + 2 * 3\nprint a and \"x\" or not false\ndef t \"n\" { f = a / 2; g = \"s\" + 1 }\nbind t -> struct\n"),
+		[]byte("def tgt_ab \"b0\" {\n  a_b = 1\n  ab = 2\n}\nbind tgt_ab -> struct\n"),
+		[]byte("print 1 +\nvar = 3\nprint \"ok\" * 2\n"),
+	}
+	const n = 4
+	one := func() string {
+		var parts []string
+		for _, s := range srcs {
+			var out, log bytes.Buffer
+			bs, bd, err := bcl.Interpret(s, bcl.OptOutput(&out), bcl.OptLogger(&log), bcl.OptDisasm(true), bcl.OptStats(true))
+			parts = append(parts, out.String(), log.String(), RenderBlocks(bs), RenderBinding(bd), errText(err))
+			tg := &tgtAB{}
+			err = bcl.Unmarshal(s, tg, bcl.OptOutput(&out), bcl.OptLogger(&log))
+			parts = append(parts, fmt.Sprintf("%#v", tg), errText(err))
+			if p, err := bcl.Parse(s, "c.bcl", bcl.OptOutput(&out), bcl.OptLogger(&log)); err == nil {
+				d, _, _ := DumpProg(p)
+				lr := loadVia(d, nil, "c", true)
+				parts = append(parts, string(d), lr.Listing, errText(lr.Err))
+			}
+		}
+		return digest(parts...)
+	}
+	got := make([]string, n)
+	barrier := make(chan struct{})
+	var wg sync.WaitGroup
+	for i := 0; i < n; i++ {
+		wg.Add(1)
+		go func(i int) {
+			defer wg.Done()
+			defer func() {
+				if x := recover(); x != nil {
+					got[i] = "panic:" + panicSig(x)
+				}
+			}()
+			<-barrier
+			got[i] = one()
+		}(i)
+	}
+	close(barrier)
+	wg.Wait()
+	after := one()
+	for i := 0; i < n; i++ {
+		if got[i] != after {
+			o.viol("C12", "interference", "first concurrent use of the library in a process gives a different result than later use",
+				fmt.Sprintf("caller %d of %d entering the library at the same time, as the first calls of the process, got a result that differs from the same calls made afterwards (%s)", i, n, short(got[i], 60)), sc)
+			break
+		}
+	}
+	o.probe("cold_starts", 1)
+	o.Evals += n + 1
+}
 
 func c12Callers(sc *Scenario) *Outcome {
 	o := &Outcome{}
@@ -208,7 +272,7 @@ func c12Callers(sc *Scenario) *Outcome {
 	solo := make([][]string, nc)
 	for c := range lists {
 		for k := 0; k < nops; k++ {
-			cl := call{r.Intn(numOps), r.Intn(4)}
+			cl := call{r.Intn(numOps), r.Intn(32)}
 			if r.Chance(1, 3) {
 				cl.op = 2 // executing the shared Prog is the interesting case
 			}
@@ -238,6 +302,7 @@ func c12Callers(sc *Scenario) *Outcome {
 	}
 	close(barrier)
 	wg.Wait()
+	Beat()
 	h := uint64(1469598103934665603)
 	opNames := []string{"Parse", "Interpret", "Execute(shared)", "Dump(shared)", "LoadProg+Execute", "Unmarshal", "ParseFile", "Bind(shared binding)"}
 	for c := range lists {
@@ -257,6 +322,13 @@ func c12Callers(sc *Scenario) *Outcome {
 }
 
 func (c12) Run(t *testing.T, sc *Scenario) *Outcome {
+	if !coldStartDone {
+		o := &Outcome{}
+		coldStart(o, sc)
+		if len(o.Violations) > 0 {
+			return o
+		}
+	}
 	if sc.Class == "callers" {
 		return c12Callers(sc)
 	}
